@@ -22,7 +22,8 @@ PROPERTY = "C06"
 THEOREM_MODULE = "NemoVerif.Theorems.C06"
 RULE = ("program: main + 1..5 flows in a call DAG (each flow either only activated or only started/awaited), bodies from "
         "match / start action / await action / start|await|activate flow / and-or groups / when-or when-else / abort / "
-        "StopFlow / FinishFlow / deactivate / early-restart label, nesting depth <= 4; history: 3..10 (quick) / up to 30 "
+        "StopFlow / FinishFlow / deactivate / early-restart label, nesting depth <= 4, 15 % with a conflict cluster (2-3 flows matching the same event and then "
+        "starting an action), 8 % of the programs with >= 2 activated flows mutually activating; history: 3..10 (quick) / up to 30 "
         "(thorough) items drawn from plain events and action Started/Finished events for already started actions "
         "(late, duplicated, after Stop, or never). non-trivial = at least one recorded outermost abort/finish call whose "
         "instance had a child or an action; distinct = distinct (program, history) JSON.")
@@ -124,9 +125,22 @@ def gen_program(rng):
     if names and not any(st[0] in ("start", "await", "activate", "when", "await_group", "start_group") for st in body):
         nm = rng.choice(names)
         body.insert(0, ["activate", nm] if kinds[nm] == "act" else ["start", nm])
-    body.append(["match", "Never"] if rng.random() < 0.6 else ["match", rng.choice(EVENTS)])
+    # main usually ends during the history (its end aborts everything it started); sometimes it never does
+    body.append(["match", "Never"] if rng.random() < 0.3 else ["match", rng.choice(EVENTS)])
     flows["main"] = body
     prog = {"flows": flows, "kinds": kinds}
+    # conflict cluster: several flows (often a flow and one it starts) wait for the same event and then start an action —
+    # the same one in 70 % (co-win: shared action), a different one otherwise (a loser is aborted with its children
+    # while the other heads of the same round are still being resolved)
+    if len(names) >= 2 and rng.random() < 0.15:
+        e = rng.choice(EVENTS)
+        members = rng.sample(names, min(len(names), rng.choice([2, 3])))
+        same = rng.choice(SCRIPTS)
+        for nm in members:
+            sc = same if rng.random() < 0.7 else rng.choice(SCRIPTS)
+            pos = rng.randrange(0, min(2, len(flows[nm])) + 1)
+            flows[nm][pos:pos] = [["match", e], ["start_act", sc]]
+        prog["cluster"] = members
     # mutually activating flows (activation cycle): the call graph is no longer a DAG
     if len(actv) >= 2 and rng.random() < 0.08:
         x, y = rng.sample(actv, 2)
@@ -138,13 +152,31 @@ def gen_program(rng):
     return prog
 
 
-def gen_history(rng, tier):
-    n = rng.randrange(3, 11) if tier == "quick" else rng.randrange(3, 31)
+def _used_events(prog):
+    """event names the program waits for (drawn more often, so that flows actually advance and end)"""
+    ev = []
+    for body in prog["flows"].values():
+        for st in _walk(body):
+            if st[0] == "match" and st[1] in EVENTS:
+                ev.append(st[1])
+            elif st[0] == "match_group":
+                ev += [x for x in st[2:4] if x in EVENTS]
+            elif st[0] == "when":
+                ev += [t[1] for t, _b in st[1] if t[0] == "ev"]
+    return ev
+
+
+def gen_history(rng, tier, prog=None):
+    n = rng.randrange(5, 13) if tier == "quick" else rng.randrange(3, 31)
+    used = _used_events(prog) if prog else []
     h = []
     for _ in range(n):
         r = rng.random()
-        if r < 0.55:
-            h.append({"ev": rng.choice(EVENTS)})
+        if r < 0.25:
+            # schedule-directed: the k-th plain event some head is waiting for at that moment (resolved at run time)
+            h.append({"auto": rng.randrange(0, 6)})
+        elif r < 0.55:
+            h.append({"ev": rng.choice(used) if used and rng.random() < 0.7 else rng.choice(EVENTS)})
         elif r < 0.85:
             h.append({"act": "Finished", "k": rng.randrange(0, 6), "pick": rng.choice(["any", "live", "stopped"])})
         else:
@@ -156,7 +188,8 @@ def gen_cases(rng, tier):
     n = 300 if tier == "quick" else 8000
     cases = []
     for _ in range(n):
-        cases.append({"kind": "e2e", "prog": gen_program(rng), "hist": gen_history(rng, tier), "seed": rng.randrange(1 << 30)})
+        prog = gen_program(rng)
+        cases.append({"kind": "e2e", "prog": prog, "hist": gen_history(rng, tier, prog), "seed": rng.randrange(1 << 30)})
     return cases
 
 
@@ -323,20 +356,21 @@ def _install():
                        "started_pushed": None if act == "park" else any(e.name == "FlowStarted" and e.arguments.get("source_flow_instance_uid") == ep["uid"] and id(e) not in ep["_qids"] for e in ep["_state"].internal_events)})
 
     def outer(op, orig):
-        def w(state, flow_state, matching_scores, deactivate_flow=False):
+        # `*extra`: a repaired `_abort_flow` may thread further arguments through its recursion (visited set)
+        def w(state, flow_state, matching_scores, deactivate_flow=False, *extra):
             R = REC
             if R is None:
-                return orig(state, flow_state, matching_scores, deactivate_flow)
+                return orig(state, flow_state, matching_scores, deactivate_flow, *extra)
             if R.depth > 0:
-                return orig(state, flow_state, matching_scores, deactivate_flow)
+                return orig(state, flow_state, matching_scores, deactivate_flow, *extra)
             resolve_end(R, op, flow_state.uid)
             if len(R.records) >= MAX_RECORDS:
-                return orig(state, flow_state, matching_scores, deactivate_flow)
+                return orig(state, flow_state, matching_scores, deactivate_flow, *extra)
             pre = snap(state)
             R.depth += 1
             exc = None
             try:
-                return orig(state, flow_state, matching_scores, deactivate_flow)
+                return orig(state, flow_state, matching_scores, deactivate_flow, *extra)
             except BaseException as e:
                 exc = type(e).__name__
                 raise
@@ -590,6 +624,11 @@ def run_impl(case):
             if "ev" in h:
                 bad = step({"type": h["ev"]}, h)
                 continue
+            if "auto" in h:
+                waited = sorted(n for n, hs in st.event_matching_heads.items() if n in EVENTS and hs)
+                name = waited[h["auto"] % len(waited)] if waited else EVENTS[h["auto"] % len(EVENTS)]
+                bad = step({"type": name}, dict(h, ev=name))
+                continue
             pool = started
             if h.get("pick") == "live":
                 pool = [x for x in started if x[0] not in stopped and x[0] not in finished_rx] or started
@@ -749,7 +788,9 @@ def _encode_state(pre):
 
 def _model_req(rec):
     st, fu, au, fid, sc = _encode_state(rec["pre"])
-    fuel = len(st["flows"]) + 2
+    # theorem abortTopV_fuel_sufficient: 2 * #instances + 1 suffices for the repaired recursion on EVERY hierarchy;
+    # for the as-is recursion (answer "asis") any fuel above the depth suffices on acyclic hierarchies (abort_fuel_sufficient)
+    fuel = 2 * len(st["flows"]) + 3
     op = rec["op"]
     if op in ("abort", "finish"):
         return {"m": "C06." + op, "st": st, "uid": fu.get(rec["uid"]), "d": rec["d"], "fuel": fuel}
@@ -788,7 +829,25 @@ def model_requests(case, obs):
 _EXC = {"KeyError": "KeyError", "ValueError": "ValueError", "ColangRuntimeError": "ColangRuntimeError", "RecursionError": "fuel"}
 
 
+def _cmp_asis(rec, m):
+    """the as-is recursion (the one the unconditional-on-acyclicity theorems of Theorems/C06.lean speak about) and the
+    repaired recursion (visited set) give the same answer whenever the as-is one terminates"""
+    a = m.get("asis")
+    if a is None or (a.get("res") == "err" and a.get("kind") == "fuel"):
+        return None
+    if _has_child_cycle(rec["pre"]["flows"]):
+        return None  # inside a cycle of child flows the two recursions legitimately differ (re-entered instances)
+    b = {k: v for k, v in m.items() if k != "asis"}
+    if a != b:
+        return f"{rec['op']} uid={rec.get('uid')}: as-is and repaired recursion models differ although the as-is one terminates: {str(a)[:150]} / {str(b)[:150]}"
+    return None
+
+
 def _cmp_record(rec, m):
+    if rec["op"] in ("abort", "finish", "endscope"):
+        d = _cmp_asis(rec, m)
+        if d:
+            return d
     st, fu, au, fid, sc = _encode_state(rec["pre"])
     if rec["op"] == "startflow" and late_starts({"records": [rec]}):
         g = m.get("start")
@@ -948,6 +1007,29 @@ def oracle(case, obs):
                 started_seen.update(f["uid"] for f in snap_["flows"] if f["status"] == "STARTED")
     for step in obs["steps"]:
         started_seen.update(f["uid"] for f in step.get("flows", []) if f["status"] == "STARTED")
+    # O5: a shared action outlives every sharer but the last: no Stop is generated by the end of one instance while
+    # another listening instance still holds the action.  Only claimed for actions that never were registered in a
+    # `when` / group scope (a scope end releases an action without removing it from `action_uids`) and outside cycles
+    # of child flows (an instance inside a cycle can be ended twice: finding activation-cycle-recursion).
+    if not any(s_.get("runaway") for s_ in obs["steps"]):
+        scoped = set()
+        cyc = False
+        for r in obs.get("records", []):
+            for snap_ in (r.get("pre"), r.get("post")):
+                if snap_:
+                    for f in snap_["flows"]:
+                        for _n, _fl, al in f["scopes"]:
+                            scoped.update(al)
+                    cyc = cyc or _has_child_cycle(snap_["flows"])
+        if not cyc:
+            for r in obs.get("records", []):
+                if r["op"] in ("abort", "finish") and r.get("post"):
+                    for e in r["post"]["out"]:
+                        if e["k"] == "Stop" and e["action"] not in scoped:
+                            for f in r["post"]["flows"]:
+                                if f["uid"] != r["uid"] and f["status"] in _LISTENING and e["action"] in f["actions"]:
+                                    return (f"the end of instance {r['uid']} sent {e['type']} for action {e['action']} although the still-running "
+                                            f"instance {f['uid']} shares it")
     for si, step in enumerate(obs["steps"]):
         if step.get("skipped"):
             continue
@@ -1037,6 +1119,40 @@ def late_starts(obs):
     return late
 
 
+def bad_cowins(obs):
+    """Region of the open finding `cowin-after-abort-in-conflict`: action uids that took part in a step of the unpatched
+    `_resolve_action_conflicts` which the repaired behaviour (and the model) excludes —
+    (1) a head adopts (co-wins onto) an action that is no longer STARTING: the winner's flow was aborted by a losing
+        flow earlier in the same loop and its action was stopped again;
+    (2) the adopting head belongs to a flow that is no longer listening (aborted earlier in the same loop);
+    (3) a `Start…` event is emitted for an action that no listening flow holds (a head of a flow that was aborted while
+        an earlier loop group was resolved wins its group)."""
+    bad = set()
+    recs = obs.get("records", [])
+    for i in range(len(recs) - 1):
+        a, b = recs[i], recs[i + 1]
+        if a.get("post") is None or a.get("exc") or b.get("seq") != a.get("seq", -1) + 1:
+            continue
+        pf = {f["uid"]: f for f in a["post"]["flows"]}
+        pa = {x["uid"]: x for x in a["post"]["actions"]}
+        na = {x["uid"] for x in b["pre"]["actions"]}
+        for f in b["pre"]["flows"]:
+            old = pf.get(f["uid"])
+            if not old:
+                continue
+            for o, n in zip(old["actions"], f["actions"]):
+                if o != n and o not in na and n in pa:
+                    if pa[n]["status"] != "STARTING" or old["status"] not in _LISTENING:
+                        bad.add(n)
+    for r in recs:
+        if r["op"] == "update" and r["ev"]["start"] and not r["ev"]["started"] and r["ev"]["auid"] is not None:
+            au = r["ev"]["auid"]
+            if any(x["uid"] == au for x in r["pre"]["actions"]) and \
+                    not any(au in f["actions"] and f["status"] in _LISTENING for f in r["pre"]["flows"]):
+                bad.add(au)
+    return bad
+
+
 def _has_child_cycle(flows):
     ch = {f["uid"]: [c for c in f["children"]] for f in flows}
     state = {}
@@ -1056,8 +1172,21 @@ def _has_child_cycle(flows):
 def signature(case, obs, msg):
     if not msg:
         return None
-    if ("RecursionError" in msg or "ValueError" in msg) and any(_has_child_cycle(s.get("flows", [])) for s in obs.get("steps", [])):
+    cyc = any(_has_child_cycle(s.get("flows", [])) for s in obs.get("steps", [])) or \
+        any(r.get("pre") and _has_child_cycle(r["pre"]["flows"]) for r in obs.get("records", []))
+    if ("RecursionError" in msg or "ValueError" in msg) and cyc:
         return "activation-cycle-recursion"
+    # the model is of the REPAIRED recursion (visited set): on the unpatched tree an instance inside a cycle of child
+    # flows is re-entered (ended twice) even when no exception escapes
+    if cyc and msg.split(" ")[0].rstrip(":") in ("abort", "finish", "endscope") and \
+            any(r["op"] in ("abort", "finish", "endscope") and r.get("pre") and _has_child_cycle(r["pre"]["flows"]) for r in obs.get("records", [])):
+        return "activation-cycle-recursion"
+    bad = bad_cowins(obs)
+    if bad:
+        if msg.startswith("trace is not a path of the operation-sequence semantics") and "coWin" in msg:
+            return "cowin-after-abort-in-conflict"
+        if ("second Stop" in msg or "got no Stop" in msg or "shares it" in msg) and any(a in msg for a in bad):
+            return "cowin-after-abort-in-conflict"
     late = late_starts(obs)
     if not late:
         return None
@@ -1122,6 +1251,12 @@ def tags(case, obs):
             t.append("step-exc:" + s["exc"].split(":")[0])
         if s.get("runaway"):
             t.append("runaway")
+    if bad_cowins(obs):
+        t.append("cowin-after-abort")
+    if case.get("prog", {}).get("cluster"):
+        t.append("conflict-cluster")
+    if any("auto" in h for h in case.get("hist", [])):
+        t.append("schedule-directed")
     t = sorted(set(t)) + ["flows:" + str(len(case.get("prog", {}).get("flows", {})))]
     shared = any(a["count"] >= 2 for s in obs.get("steps", []) for a in s.get("actions", []))
     if shared:
